@@ -17,6 +17,7 @@ func init() {
 	verifRegister("VerifC19_KBuiltin", VerifC19_KBuiltin)
 	verifRegister("VerifC19_KUser", VerifC19_KUser)
 	verifRegister("VerifC19_KShadow", VerifC19_KShadow)
+	verifRegister("VerifC19_KData", VerifC19_KData)
 	verifRegister("VerifC19_KKeyword", VerifC19_KKeyword)
 	verifRegister("VerifC19_KRedef", VerifC19_KRedef)
 }
@@ -343,5 +344,48 @@ func VerifC19_KKeyword() {
 	bindFails := verifBindFails(v)
 	vAssert(!bindFails, "required arguments plus keyword pairs bind: "+v.String())
 	vAssert(!lint && !lintSem, "a call that binds is not reported by any arity check")
+	vCover("end")
+}
+
+
+// A list that merely LOOKS like a call is not one: data under (quote ...), the control list of
+// dotimes, and calls of a name that a top-level (set 'name ...) has taken over from a builtin.  The
+// arity checks report such a source only if evaluating it fails argument binding.
+func VerifC19_KData() {
+	forms := []string{
+		"(quote (car%ARGS%))",
+		"(length (quote (car%ARGS%)))",
+		"(list (quote (a (car%ARGS%) b)))",
+		"'(car%ARGS%)",
+		"(dotimes (car 3) car)",
+		"(dotimes (nth 2) (list nth%ARGS%))",
+		"(set 'car (lambda (a b) 1))\n(car%ARGS%)",
+		"(set 'car (lambda (a b) 1))\n(defun g () (car%ARGS%))\n(g)",
+		"(set 'car 5)\n(list car%ARGS%)",
+	}
+	fi := vndChoice("form", len(forms))
+	k := vndInt("k")
+	vAssume(k >= 0)
+	vAssume(k <= 3)
+	args := ""
+	for j := 0; j < k; j++ {
+		args += " '(1)"
+	}
+	src := strings.Replace(forms[fi], "%ARGS%", args, -1)
+	vObserve("src", src)
+	lint := verifArityDiags(src, true) > 0
+	lintPlain := verifArityDiags(src, false) > 0
+	env := verifNewEnv()
+	v := env.LoadString("t.lisp", src)
+	bindFails := verifBindFails(v)
+	vObserve("lint", lint)
+	vObserve("bindFails", bindFails)
+	if lint || lintPlain {
+		vAssert(bindFails, "the arity checks report only sources whose evaluation fails argument binding: "+src)
+		vCover("reported")
+	}
+	if (fi == 6 || fi == 7) && bindFails {
+		vCover("shadow-fails") // the user-arity check does not follow set-bound lambdas: no claim that it is reported
+	}
 	vCover("end")
 }
